@@ -10,6 +10,7 @@
    bytes, and running out of that bound is the explicit result
    [Panic P_HANG] (the real loop would spin for ever). *)
 From Compio.Model Require Import Base.
+From Compio.Model Require IoHelpers.   (* scripted writer, write_all, event log (C11) *)
 From Compio.Gen Require Consts.
 
 (* the runner records `2 8` for a case on which the harness does not terminate *)
@@ -237,3 +238,118 @@ Definition utf8 (c : N) : list byte :=
   else [240 + c / 262144; 128 + (c / 4096) mod 64; 128 + (c / 64) mod 64; 128 + c mod 64]%N.
 
 Definition CharDelim (c : N) : framer := AnyDelim (utf8 c).
+
+(* ---------------------------------------------------------------------- *)
+(* sink side with a codec that can fail (write.rs: State, Sink for Framed)
+
+   The write buffer lives in the sink's state and is NOT emptied after a
+   write: start_send must clear it.  A serialising encoder may have appended
+   some bytes before it returns an error: start_send clears again and no frame
+   goes out.  The probe codec of the harness: encode appends the payload; a
+   flagged item appends only its first k bytes and then fails.               *)
+
+Record sitem := mksitem { si_payload : list byte; si_fail : option nat }.
+
+(* Encoder::encode(item, buf): appends to [buf]; false = Err *)
+Definition encode_item (buf : list byte) (it : sitem) : list byte * bool :=
+  match si_fail it with
+  | None => (buf ++ si_payload it, true)
+  | Some k => (buf ++ firstn k (si_payload it), false)
+  end.
+
+(* State::Idle(io, buf) / State::Writing(write_all(buf)); the Flushing and
+   Closing futures complete within the poll that creates them *)
+Record sink := mksink { sk_buf : list byte; sk_writing : bool; sk_conf : bool }.
+Definition sink_init : sink := mksink [] false true.     (* State::Configuring(io, Vec::new()) *)
+
+Inductive sres := SOk | SCodecErr | SIoErr (kind : N).
+
+Definition buf_clear (_ : list byte) : list byte := [].   (* SetLenExt::clear *)
+
+(* Sink::start_send, called in the Idle state *)
+Definition start_send (fr : framer) (sk : sink) (it : sitem) : sres * sink :=
+  let buf := buf_clear (sk_buf sk) in                     (* buf.clear(); reserve(64) *)
+  let '(buf, ok) := encode_item buf it in
+  if ok then (SOk, mksink (enclose fr buf) true false)        (* framer.enclose(buf); start_write() *)
+  else (SCodecErr, mksink (buf_clear buf) false false).        (* buf.clear(); return Err(e) *)
+
+Definition wscript := list IoHelpers.answer.
+Definition wlog := list IoHelpers.wev.
+
+(* poll_sink: a pending write_all is driven to completion (a Pending answer
+   of the writer only makes the future yield and be polled again); the buffer
+   comes back as it was *)
+Definition finish_write (sk : sink) (ws : wscript) (log : wlog) : sres * sink * wscript * wlog :=
+  if sk_writing sk then
+    let '(o, l, ws') := IoHelpers.write_all ws (sk_buf sk) in
+    (match o with IoHelpers.OOk _ => SOk | IoHelpers.OErr e => SIoErr e end,
+     mksink (sk_buf sk) false false, ws', log ++ l)
+  else (SOk, sk, ws, log).
+
+(* SinkExt::feed = poll_ready, then start_send *)
+Definition sink_feed (fr : framer) (it : sitem) (sk : sink) (ws : wscript) (log : wlog)
+  : sres * sink * wscript * wlog :=
+  let '(r, sk, ws, log) := finish_write sk ws log in
+  match r with
+  | SOk => let '(r', sk') := start_send fr sk it in (r', sk', ws, log)
+  | _ => (r, sk, ws, log)
+  end.
+
+(* poll_flush: in the Writing state it completes the write and reports its
+   result (the inner writer is not flushed then); Idle: inner.flush() *)
+Definition sink_flush (sk : sink) (ws : wscript) (log : wlog) : sres * sink * wscript * wlog :=
+  if sk_writing sk then finish_write sk ws log
+  else (SOk, mksink (sk_buf sk) false false, ws, log ++ [IoHelpers.WFlush]).
+
+(* poll_close: likewise; Idle: inner.shutdown(); in the Configuring state
+   (nothing sent or flushed yet) poll_sink only initialises and reports Ok:
+   the writer is not shut down *)
+Definition sink_close (sk : sink) (ws : wscript) (log : wlog) : sres * sink * wscript * wlog :=
+  if sk_writing sk then finish_write sk ws log
+  else if sk_conf sk then (SOk, mksink (sk_buf sk) false false, ws, log)
+  else (SOk, sk, ws, log ++ [IoHelpers.WShutdown]).
+
+Inductive sop := SFeed (it : sitem) | SSend (it : sitem) | SFlush | SClose.
+
+Definition sink_step (fr : framer) (op : sop) (sk : sink) (ws : wscript) (log : wlog)
+  : sres * sink * wscript * wlog :=
+  match op with
+  | SFeed it => sink_feed fr it sk ws log
+  | SSend it =>                                           (* SinkExt::send = feed, then flush *)
+    let '(r, sk, ws, log) := sink_feed fr it sk ws log in
+    match r with
+    | SOk => sink_flush sk ws log
+    | _ => (r, sk, ws, log)
+    end
+  | SFlush => sink_flush sk ws log
+  | SClose => sink_close sk ws log
+  end.
+
+Fixpoint sink_run (fr : framer) (ops : list sop) (sk : sink) (ws : wscript) (log : wlog)
+  : list sres * sink * wlog :=
+  match ops with
+  | [] => ([], sk, log)
+  | op :: ops' =>
+    let '(r, sk, ws, log) := sink_step fr op sk ws log in
+    let '(rs, sk', log') := sink_run fr ops' sk ws log in
+    (r :: rs, sk', log')
+  end.
+
+(* the writer's answers of the harness: Pending is transparent *)
+Inductive wans := WAns (a : IoHelpers.answer) | WPending.
+Definition strip_pending (l : list wans) : wscript :=
+  flat_map (fun a => match a with WAns x => [x] | WPending => [] end) l.
+
+(* ---------------------------------------------------------------------- *)
+(* stream side with a decoder that can fail: the frame is consumed like any
+   other and the error is the item (read.rs advances regardless).  The probe
+   decoder of the harness rejects payloads that start with 255.              *)
+
+Definition probe_decode (i : item) : item :=
+  match i with
+  | IOk (255%N :: _) => IErr E_INVALID_DATA
+  | _ => i
+  end.
+
+Definition decode_stream_probe (fr : framer) (sched : list rd) (src : list byte) :=
+  let! '(its, r, s) := decode_stream fr sched src in Ok (map probe_decode its, r, s).
